@@ -145,7 +145,13 @@ def gen_workflow(rng, profile):
         if rng.random() < 0.25:
             deps['lit'] = lit(rng.choice([7, 'str', True, [1, 2], {'k': 'v'}]))
         if rng.random() < 0.2 and earlier:
-            deps['lst'] = tlist([mkref('succ_tok', rng.choice(earlier)), lit('z')])
+            # a list mixing literals and references, in either order (a reference after a literal is a dependency too)
+            lk = [mkref('succ_tok', rng.choice(earlier)), lit('z')]
+            if rng.random() < 0.5:
+                lk.reverse()
+            if rng.random() < 0.3:
+                lk.append(mkref('succ_tok', rng.choice(earlier)))
+            deps['lst'] = tlist(lk)
         if earlier and rng.random() < profile.get('p_sum', 0.3):
             # a second reference to a producer followed by another producer inside ONE expression, after an expression
             # that already referenced the first (list order makes the processing order deterministic)
